@@ -52,6 +52,11 @@ def package(features: list[str], k: int) -> Path:
         files["core/geometry/impl.py"] = "class Circle:\n    def r(self) -> int:\n        ...\n\n\ndef area(c: Circle) -> int:\n    ...\n"
         files["facade/__init__.py"] = "from histpkXX.core.geometry.impl import Circle, area\n"
         files["facade/fill.py"] = "def fill() -> int:\n    ...\n"
+    if "abstract-class" in f:
+        files["absmod.py"] = ("from abc import ABC, abstractmethod\n\n\nclass Shape(ABC):\n    def __init__(self, name: str):\n        self.name = name\n\n"
+                              "    @abstractmethod\n    def area(self) -> int:\n        ...\n\n\nclass PubBase:\n    pass\n\n\nclass Mixed(PubBase, ABC):\n    def __init__(self, depth: int):\n        ...\n\n\n"
+                              "class _Holder:\n    class Visitor(ABC):\n        def __init__(self, depth: int):\n            ...\n\n        def visit(self) -> int:\n            ...\n\n\n"
+                              "class HoldA(_Holder):\n    pass\n\n\nclass HoldB(_Holder):\n    pass\n")
     if "package-newtype" in f:
         files["accounts.py"] = ("from typing import NewType\n\nAccountId = NewType(\"AccountId\", int)\n\n\ndef new_account(name: str) -> AccountId:\n    ...\n\n\n"
                                 "def close_account(account: AccountId) -> bool:\n    ...\n")
